@@ -208,38 +208,35 @@ with conv_o (t : term) : bool :=
   | Var _ => false
   end.
 
-(* outcome of convert_triple(t).head() followed by RdfXmlFormatter::format:
+(* outcome of convert_triple(t).head():
    CSkip = Empty stack (the triple is silently ignored by rio_format_triples);
-   CQuotedSubj / CQuotedObj = a Rio triple whose subject / object is Subject::Triple / Term::Triple,
-   on which the formatter returns an InvalidInput error *)
-Inductive conv := CSkip | CQuotedSubj | CQuotedObj | CTriple (t : rtriple).
-Inductive sconv := SBad | SQuoted | SNode (n : rnode).
-Inductive oconv := OBad | OQuoted | OObj (o : robj).
+   CRio s p o = a Rio triple; its subject / object may be Subject::Triple / Term::Triple
+   (SQuoted / OQuoted), on which Rio's formatter returns an InvalidInput error *)
+Inductive sconv := SQuoted | SNode (n : rnode).
+Inductive oconv := OQuoted | OObj (o : robj).
+Inductive conv := CSkip | CRio (s : sconv) (p : str) (o : oconv).
 Definition convert (t : term * term * term) : conv :=
   let '(s, p, o) := t in
   let cs := match s with
-            | Iri i => SNode (RIri i) | Bnode b => SNode (RBnode b)
-            | Triple _ _ _ => if conv_s s then SQuoted else SBad
-            | _ => SBad
+            | Iri i => Some (SNode (RIri i)) | Bnode b => Some (SNode (RBnode b))
+            | Triple _ _ _ => if conv_s s then Some SQuoted else None
+            | _ => None
             end in
   match cs with
-  | SBad => CSkip
-  | _ =>
+  | None => CSkip
+  | Some rs =>
     match p with
     | Iri pi =>
         let co := match o with
-                  | Iri i => OObj (ONode (RIri i)) | Bnode b => OObj (ONode (RBnode b))
-                  | LitDt v dt => OObj (if str_eqb xsd_string dt then OSimple v else OTyped v dt)
-                  | LitLang v tag => OObj (OLang v tag)
-                  | Triple _ _ _ => if conv_o o then OQuoted else OBad
-                  | Var _ => OBad
+                  | Iri i => Some (OObj (ONode (RIri i))) | Bnode b => Some (OObj (ONode (RBnode b)))
+                  | LitDt v dt => Some (OObj (if str_eqb xsd_string dt then OSimple v else OTyped v dt))
+                  | LitLang v tag => Some (OObj (OLang v tag))
+                  | Triple _ _ _ => if conv_o o then Some OQuoted else None
+                  | Var _ => None
                   end in
-        match co, cs with
-        | OBad, _ => CSkip
-        | _, SQuoted => CQuotedSubj             (* the subject is examined first by format() *)
-        | OQuoted, _ => CQuotedObj
-        | OObj ob, SNode n => CTriple (n, pi, ob)
-        | _, SBad => CSkip
+        match co with
+        | None => CSkip
+        | Some ro => CRio rs pi ro
         end
     | _ => CSkip
     end
@@ -366,35 +363,20 @@ Definition flatten (evs : list event) : str := flat_map flat1 evs.
 (* ------------------------------------------------------------------------------------------- *)
 (* 7. sophia: RdfXmlSerializer::serialize_triples                                               *)
 (* ------------------------------------------------------------------------------------------- *)
-Inductive ser_result := SerOk (doc : str) | SerErrSubj | SerErrObj.
-(* rio_format_triples: skip what convert_triple rejects, stop at the first formatter error *)
-Fixpoint collect (g : list (term * term * term)) : list rtriple * option ser_result :=
-  match g with
-  | [] => ([], None)
-  | t :: r =>
-      match convert t with
-      | CSkip => collect r
-      | CQuotedSubj => ([], Some SerErrSubj)
-      | CQuotedObj => ([], Some SerErrObj)
-      | CTriple x => let '(ts, e) := collect r in (x :: ts, e)
-      end
-  end.
-(* `if self.config.indentation > 0 { with_indentation(..) } else { new(..) }` *)
-Definition indent_opt (indentation : N) : option N := if indentation =? 0 then None else Some indentation.
-Definition doc_events (indentation : N) (ts : list rtriple) : list event :=
-  wr (indent_opt indentation) false 0 (fmt_doc ts).
-Definition serialize (indentation : N) (g : list (term * term * term)) : ser_result :=
-  match collect g with
-  | (ts, None) => SerOk (flatten (doc_events indentation ts))
-  | (_, Some e) => e
-  end.
+Inductive ser_result := SerOk (doc : str) | SerErrSubj | SerErrObj | SerErrInput.
 
-(* ------------------------------------------------------------------------------------------- *)
-(* 8. reading the events back (the vocabulary the formatter uses: rdf:RDF, rdf:Description with   *)
-(*    rdf:about / rdf:nodeID, property elements with a namespace declaration and rdf:resource /   *)
-(*    rdf:nodeID / xml:lang / rdf:datatype / text).  [None] = error, or a construct outside this  *)
-(*    vocabulary.                                                                                 *)
-(* ------------------------------------------------------------------------------------------- *)
+(* The proposed repair of xml/src/serializer.rs (build/proposed/C18.diff) wraps Rio's formatter in
+   `Checked`, modelled by [guard = true]; [guard = false] is the serializer as it is without it. *)
+(* node_id: a label starting with a digit or '_' gets one more '_' in front *)
+Definition node_out (guard : bool) (b : str) : str :=
+  if guard then match b with
+                | c :: _ => if in_rng c 48 57 || (c =? 95) then 95 :: b else b
+                | [] => b
+                end
+  else b.
+Definition ren_node (guard : bool) (n : rnode) : rnode :=
+  match n with RBnode b => RBnode (node_out guard b) | x => x end.
+(* l_* and is_reserved are defined in section 8 (the reader has the same list) *)
 Definition l_about : str := [97;98;111;117;116].
 Definition l_aboutEach : str := [97;98;111;117;116;69;97;99;104].
 Definition l_aboutEachPrefix : str := [97;98;111;117;116;69;97;99;104;80;114;101;102;105;120].
@@ -408,12 +390,70 @@ Definition l_RDF : str := [82;68;70].
 Definition l_resource : str := [114;101;115;111;117;114;99;101].
 Definition l_Description : str := [68;101;115;99;114;105;112;116;105;111;110].
 Definition rdf_li : str := rdf_ns ++ l_li.
-(* parser.rs RESERVED_RDF_ELEMENTS plus rdf:Description: not allowed as property element names *)
+(* parser.rs RESERVED_RDF_ELEMENTS plus rdf:Description: not allowed as property element names;
+   the same twelve names are RDF_RESERVED in the repair *)
 Definition reserved_props : list str :=
   map (app rdf_ns) [l_about; l_aboutEach; l_aboutEachPrefix; l_bagID; l_datatype; l_ID; l_li;
                     l_nodeID; l_parseType; l_RDF; l_resource; l_Description].
 Definition is_reserved (p : str) : bool := existsb (str_eqb p) reserved_props.
+(* check_predicate: has_local_name (Rio's own split rule finds a local name) && !reserved *)
+Definition has_local (p : str) : bool := match snd (split_iri p) with [] => false | _ => true end.
+Definition check_pred (p : str) : bool := has_local p && negb (is_reserved p).
+Definition lit_text (o : robj) : option str :=
+  match o with ONode _ => None | OSimple v | OLang v _ | OTyped v _ => Some v end.
+(* the whole check on a Rio triple whose subject and object are not quoted triples *)
+Definition expressible (t : rtriple) : bool :=
+  let '(_, p, o) := t in
+  check_pred p && match lit_text o with Some v => xml_str v | None => true end.
+Definition ren_obj (guard : bool) (o : robj) : robj :=
+  match o with ONode n => ONode (ren_node guard n) | x => x end.
+Definition ren_t (guard : bool) (t : rtriple) : rtriple :=
+  let '(s, p, o) := t in (ren_node guard s, p, ren_obj guard o).
 
+Inductive fmt_result := FOk (t : rtriple) | FErr (e : ser_result).
+(* Checked::format followed by RdfXmlFormatter::format, as far as errors are concerned *)
+Definition guard_format (guard : bool) (s : sconv) (p : str) (o : oconv) : fmt_result :=
+  if guard && negb (check_pred p) then FErr SerErrInput
+  else if guard && match o with OObj ob => match lit_text ob with Some v => negb (xml_str v) | None => false end | OQuoted => false end
+  then FErr SerErrInput
+  else match s with
+       | SQuoted => FErr SerErrSubj                    (* "RDF/XML only supports named or blank subject" *)
+       | SNode n => match o with
+                    | OQuoted => FErr SerErrObj        (* "... named, blank or literal object" *)
+                    | OObj ob => FOk (ren_t guard (n, p, ob))
+                    end
+       end.
+
+(* rio_format_triples: skip what convert_triple rejects, stop at the first formatter error *)
+Fixpoint collect (guard : bool) (g : list (term * term * term)) : list rtriple * option ser_result :=
+  match g with
+  | [] => ([], None)
+  | t :: r =>
+      match convert t with
+      | CSkip => collect guard r
+      | CRio s p o =>
+          match guard_format guard s p o with
+          | FErr e => ([], Some e)
+          | FOk x => let '(ts, e) := collect guard r in (x :: ts, e)
+          end
+      end
+  end.
+(* `if self.config.indentation > 0 { with_indentation(..) } else { new(..) }` *)
+Definition indent_opt (indentation : N) : option N := if indentation =? 0 then None else Some indentation.
+Definition doc_events (indentation : N) (ts : list rtriple) : list event :=
+  wr (indent_opt indentation) false 0 (fmt_doc ts).
+Definition serialize (guard : bool) (indentation : N) (g : list (term * term * term)) : ser_result :=
+  match collect guard g with
+  | (ts, None) => SerOk (flatten (doc_events indentation ts))
+  | (_, Some e) => e
+  end.
+
+(* ------------------------------------------------------------------------------------------- *)
+(* 8. reading the events back (the vocabulary the formatter uses: rdf:RDF, rdf:Description with   *)
+(*    rdf:about / rdf:nodeID, property elements with a namespace declaration and rdf:resource /   *)
+(*    rdf:nodeID / xml:lang / rdf:datatype / text).  [None] = error, or a construct outside this  *)
+(*    vocabulary.                                                                                 *)
+(* ------------------------------------------------------------------------------------------- *)
 (* decimal spelling of the rdf:li counter *)
 Fixpoint dec_digits (fuel : nat) (n : N) (acc : str) : str :=
   match fuel with
@@ -612,16 +652,41 @@ Definition pred_ok (strict : bool) (p : str) : bool :=
 Definition triple_ok (strict : bool) (t : rtriple) : bool :=
   let '(s, p, o) := t in node_ok strict s && pred_ok strict p && obj_ok strict o.
 
+(* With the repair the class is stated on what sophia hands over (before node_out), and the
+   conditions the wrapper checks itself ([expressible]) are no longer hypotheses.
+   label_ok = sophia's BnodeId (api/src/term/bnode_id.rs BNODE_ID) minus its rule about '.':
+   first character PN_CHARS_U (= NameStartChar without ':') or a digit, then PN_CHARS or '.'
+   (= NameChar without ':') *)
+Definition label_ok (b : str) : bool :=
+  match b with
+  | c :: r => (nc_start c || in_rng c 48 57) && forallb (fun x => negb (brk x)) r
+  | [] => false
+  end.
+Definition asafe (strict : bool) (v : str) : bool := if strict then attr_safe v else true.
+Definition lit_valid (strict : bool) (v : str) : bool := if strict then negb (has 13 v) else rio_text_ok v.
+Definition node_valid (strict : bool) (n : rnode) : bool :=
+  match n with RIri i => asafe strict i | RBnode b => label_ok b end.
+Definition obj_valid (strict : bool) (o : robj) : bool :=
+  match o with
+  | ONode n => node_valid strict n
+  | OSimple v => lit_valid strict v
+  | OLang v tag => lit_valid strict v && asafe strict tag
+  | OTyped v dt => lit_valid strict v && asafe strict dt
+  end.
+Definition triple_valid (strict : bool) (t : rtriple) : bool :=
+  let '(s, p, o) := t in node_valid strict s && has 58 p && asafe strict p && obj_valid strict o.
+
 (* ------------------------------------------------------------------------------------------- *)
 (* 10. harness-facing checkers                                                                   *)
 (* ------------------------------------------------------------------------------------------- *)
-Inductive obs_ser := ObsDoc (doc : str) | ObsSomeDoc | ObsErrSubj | ObsErrObj | ObsOther.
-Definition ser_ok (indentation : N) (g : list (term * term * term)) (o : obs_ser) : bool :=
-  match serialize indentation g, o with
+Inductive obs_ser := ObsDoc (doc : str) | ObsSomeDoc | ObsErrSubj | ObsErrObj | ObsErrInput | ObsOther.
+Definition ser_ok (guard : bool) (indentation : N) (g : list (term * term * term)) (o : obs_ser) : bool :=
+  match serialize guard indentation g, o with
   | SerOk d, ObsDoc d' => str_eqb d d'
   | SerOk _, ObsSomeDoc => true          (* success observed; the bytes are compared at the other indentation *)
   | SerErrSubj, ObsErrSubj => true
   | SerErrObj, ObsErrObj => true
+  | SerErrInput, ObsErrInput => true
   | _, _ => false
   end.
 
@@ -652,27 +717,34 @@ Definition flat_term (t : term) : bool := match t with Triple _ _ _ => false | _
 Definition flat3 (t : term * term * term) : bool :=
   let '(s, p, o) := t in flat_term s && flat_term p && flat_term o.
 
-Definition norm_term3 (t : term * term * term) : term * term * term :=
-  let '(s, p, o) := t in (s, p, match o with LitLang v tag => LitLang v (lower tag) | x => x end).
-(* the usual outcome: exactly the representable triples, in order, tags lower-cased *)
-Definition expected_parse (g : list (term * term * term)) : list (term * term * term) :=
-  map norm_term3 (filter representable g).
+(* what comes back: language tags lower-cased; with the repair, blank node labels through node_out *)
+Definition norm_term (guard : bool) (t : term) : term :=
+  match t with
+  | LitLang v tag => LitLang v (lower tag)
+  | Bnode b => Bnode (node_out guard b)
+  | x => x
+  end.
+Definition norm_term3 (guard : bool) (t : term * term * term) : term * term * term :=
+  let '(s, p, o) := t in (norm_term guard s, p, norm_term guard o).
+(* the usual outcome: exactly the representable triples, in order *)
+Definition expected_parse (guard : bool) (g : list (term * term * term)) : list (term * term * term) :=
+  map (norm_term3 guard) (filter representable g).
 
 (* what the model reader returns on the model's own events for graph g, as sophia terms *)
-Definition model_parse (strict : bool) (indentation : N) (g : list (term * term * term))
+Definition model_parse (guard strict : bool) (indentation : N) (g : list (term * term * term))
   : option (list (term * term * term)) :=
-  match collect g with
+  match collect guard g with
   | (ts, None) => option_map (map unconvert) (read strict (doc_events indentation ts))
   | _ => None
   end.
 (* observed: the triples the real parser (strict = false) or the harness's reference reader
    (strict = true) produced from the real document, in document order; None = it failed *)
-Definition parse_ok (strict : bool) (indentation : N) (g : list (term * term * term))
+Definition parse_ok (guard strict : bool) (indentation : N) (g : list (term * term * term))
   (o : option (list (term * term * term))) : bool :=
-  opt_eqb (list_eqb triple3_same) (model_parse strict indentation g) o.
+  opt_eqb (list_eqb triple3_same) (model_parse guard strict indentation g) o.
 
-Definition parse_std (strict : bool) (indentation : N) (g : list (term * term * term)) : bool :=
-  parse_ok strict indentation g (Some (expected_parse g)).
+Definition parse_std (guard strict : bool) (indentation : N) (g : list (term * term * term)) : bool :=
+  parse_ok guard strict indentation g (Some (expected_parse guard g)).
 
 (* reader stream: raw element text / raw attribute value fed to the real parser *)
 Definition text_ok (raw : str) (o : option str) : bool := opt_eqb str_eqb (rio_text_lit raw) o.
